@@ -130,7 +130,20 @@ def classes():
             for k, w in enumerate(outs):
                 self.addOut('out%d' % k, w)
 
-    _K.update(HLeaf=HLeaf, HReg=HReg, HNet=HNet, HChild=HChild)
+    class HChain(py4hw.Logic):
+        """size class: one long chain a -> x0 -> x1 ... -> r; children created output-first, input-first or in random order"""
+        def __init__(self, parent, name, a, r, n, cls, order):
+            super().__init__(parent, name)
+            self.addIn('a', a)
+            self.addOut('r', r)
+            ws = [a] + [self.wire('w%d' % i, a.getWidth()) for i in range(n - 1)] + [r]
+            for i in order:
+                if cls == 'HLeaf':
+                    HLeaf(self, 'x%d' % i, [ws[i]], [ws[i + 1]])
+                else:
+                    getattr(py4hw, cls)(self, 'x%d' % i, ws[i], ws[i + 1])
+
+    _K.update(HLeaf=HLeaf, HReg=HReg, HNet=HNet, HChild=HChild, HChain=HChain)
     return _K
 
 
@@ -333,6 +346,17 @@ def build(case):
         return hw.children['d']
     if case['type'] == 'child':
         return classes()['HChild'](hw, 'wrap', recipe(case['src'], case['block']), tup(case['cfg']))
+    if case['type'] == 'chain':
+        n = case['n']
+        if case['order'] == 'output_first':
+            order = list(range(n - 1, -1, -1))
+        elif case['order'] == 'input_first':
+            order = list(range(n))
+        else:
+            import random
+            order = list(range(n))
+            random.Random(case['order_seed']).shuffle(order)
+        return classes()['HChain'](hw, 'chain', hw.wire('a', case['w']), hw.wire('r', case['w']), n, case['cls'], order)
     plan = case['plan']
     iw = [hw.wire('in%d' % k, plan['w']) for k in range(plan['n_in'])]
     ow = [hw.wire('out%d' % k, plan['w']) for k in range(len(plan['outs']))]
